@@ -129,6 +129,42 @@ func ruleKeyStable(w *World, r *Report) {
 			r.OK(rule, pos, fname, what, "name absent; "+why)
 			return
 		}
+		if kphi, isPhi := mu.Value.(*ssa.Phi); isPhi && keySet != nil && kphi.Block().Dominates(mu.Block()) && len(kphi.Edges) >= 2 {
+			// one assignment after a join (`key := size+1; for … { if free { key = i; break } }`): each way the key
+			// can have been chosen is judged on its own edge
+			allOK := true
+			var whys []string
+			for i, e := range kphi.Edges {
+				pred := kphi.Block().Preds[i]
+				facts := append(factsAt(pred), factsAtEdgeTo(pred, kphi.Block())...)
+				free := false
+				for _, f := range facts {
+					lk, ok := f.Cond.(*ssa.Lookup)
+					if ok && lk.X == ssa.Value(keySet) && !f.Truth && (lk.Index == e || sameValueShape(lk.Index, e)) {
+						free = true
+					}
+				}
+				if free {
+					whys = append(whys, "the key is absent from the set of all assigned keys")
+					continue
+				}
+				okP, whyP := pigeonholeVal(fn, e, func(b *ssa.BasicBlock, exitEdge int) bool {
+					return (pred == b && b.Succs[exitEdge] == kphi.Block()) || edgeDominates(b, exitEdge, pred)
+				}, keySet, isKeyMap)
+				if okP {
+					whys = append(whys, whyP)
+					continue
+				}
+				allOK = false
+			}
+			if allOK {
+				for i, why := range whys {
+					r.OK(rule, pos, fname, fmt.Sprintf("%s (choice %d of %d)", what, i+1, len(whys)), "name absent; "+why)
+				}
+				updates++
+				return
+			}
+		}
 		if ok, why := mergedScanShape(fn, mu, keySet, isKeyMap); ok {
 			// one site that covers both outcomes of the scan
 			r.OK(rule, pos, fname, what+" (scan stopped at a free candidate)", "name absent; "+why)
@@ -187,10 +223,16 @@ func ruleKeyStable(w *World, r *Report) {
 // pigeonholeShape: the update stores len+1 after a loop `for i := 1; i <= len; i++`
 // that leaves through a guarded assignment at the first i not in the key set.
 func pigeonholeShape(fn *ssa.Function, mu *ssa.MapUpdate, keySet *ssa.MakeMap, isKeyMap func(ssa.Value) bool) (bool, string) {
+	return pigeonholeVal(fn, mu.Value, func(b *ssa.BasicBlock, exitEdge int) bool { return edgeDominates(b, exitEdge, mu.Block()) }, keySet, isKeyMap)
+}
+
+// pigeonholeVal: val is VariableKey(len(M)+1) and is used only where reached(header, exit edge) holds for the
+// exhausted scan of 1..len(M) in which every candidate was found taken.
+func pigeonholeVal(fn *ssa.Function, val ssa.Value, reached func(b *ssa.BasicBlock, exitEdge int) bool, keySet *ssa.MakeMap, isKeyMap func(ssa.Value) bool) (bool, string) {
 	if keySet == nil {
 		return false, ""
 	}
-	cv, ok := mu.Value.(*ssa.Convert)
+	cv, ok := val.(*ssa.Convert)
 	if !ok {
 		return false, ""
 	}
@@ -240,7 +282,7 @@ func pigeonholeShape(fn *ssa.Function, mu *ssa.MapUpdate, keySet *ssa.MakeMap, i
 				}
 			}
 		}
-		if !initOK || !stepOK || !edgeDominates(b, exitEdge, mu.Block()) {
+		if !initOK || !stepOK || !reached(b, exitEdge) {
 			continue
 		}
 		// the body continues only when keySet[VariableKey(i)] is true
@@ -328,6 +370,37 @@ func mergedScanShape(fn *ssa.Function, mu *ssa.MapUpdate, keySet *ssa.MakeMap, i
 	if back == 0 {
 		return false, ""
 	}
+	// the assignment is reached only because the candidate is free or the scan is exhausted — on every way in
+	exitOK := func(facts []Fact) bool {
+		for _, f := range facts {
+			if lk, ok := f.Cond.(*ssa.Lookup); ok && lk.X == ssa.Value(keySet) && !f.Truth {
+				if c, ok := lk.Index.(*ssa.Convert); ok && c.X == ssa.Value(phi) {
+					return true
+				}
+			}
+			if cmp, ok := f.Cond.(*ssa.BinOp); ok && cmp.X == ssa.Value(phi) {
+				if x, okl := lenArg(cmp.Y); okl && isKeyMap(x) {
+					if (cmp.Op == token.LEQ && !f.Truth) || (cmp.Op == token.GTR && f.Truth) {
+						return true
+					}
+				}
+			}
+		}
+		return false
+	}
+	mb := mu.Block()
+	reached := exitOK(factsAt(mb))
+	if !reached && len(mb.Preds) > 1 {
+		reached = true
+		for _, p := range mb.Preds {
+			if !exitOK(append(factsAt(p), factsAtEdgeTo(p, mb)...)) {
+				reached = false
+			}
+		}
+	}
+	if !reached {
+		return false, ""
+	}
 	return true, "the candidate starts at 1 and advances only while it is <= len and taken: at the assignment it is either absent from the set of all assigned keys, or len+1 with all of 1..len taken (pigeonhole)"
 }
 
@@ -344,9 +417,37 @@ func ruleFetchGate(w *World, r *Report) {
 	}
 	fname := w.Name(fn)
 	n := 0
+	bodies := sliceFetcherBodies(w)
+	isBody := func(f *ssa.Function) bool {
+		for _, b := range bodies {
+			if b == f {
+				return true
+			}
+		}
+		return false
+	}
 	EachInstr(fn, func(in ssa.Instruction) {
-		c, ok := in.(*ssa.Call)
-		if !ok || c.Call.StaticCallee() != nsf {
+		// a construction site: a call of a function that builds the slice-backed fetcher, or the make itself
+		// when NewCtxFromVars builds it in place
+		var c ssa.Instruction
+		var cfgArg ssa.Value
+		switch x := in.(type) {
+		case *ssa.Call:
+			callee := x.Call.StaticCallee()
+			if callee == nil || (callee != nsf && !isBody(callee)) {
+				return
+			}
+			if k := configParamIndex(callee); k >= 0 && k < len(x.Call.Args) {
+				c, cfgArg = x, x.Call.Args[k]
+			}
+		case *ssa.MakeSlice:
+			if isBody(fn) && isSliceFetcherMake(x) {
+				if k := configParamIndex(fn); k >= 0 {
+					c, cfgArg = x, fn.Params[k]
+				}
+			}
+		}
+		if c == nil {
 			return
 		}
 		n++
@@ -374,8 +475,8 @@ func ruleFetchGate(w *World, r *Report) {
 			case token.GTR:
 				x, y, op = y, x, token.LSS
 			}
-			minOf := func(v ssa.Value) bool { return isRangeResult(v, vkr, 0, c.Call.Args[0]) }
-			maxOf := func(v ssa.Value) bool { return isRangeResult(v, vkr, 1, c.Call.Args[0]) }
+			minOf := func(v ssa.Value) bool { return isRangeResult(v, vkr, 0, cfgArg) }
+			maxOf := func(v ssa.Value) bool { return isRangeResult(v, vkr, 1, cfgArg) }
 			switch {
 			case minOf(x) && maxOf(y) && (op == token.LEQ || op == token.LSS):
 				nonEmpty = true
@@ -393,7 +494,7 @@ func ruleFetchGate(w *World, r *Report) {
 				}
 			}
 		}
-		r.Check(lower && upper && nonEmpty, rule, w.InstrPos(c), fname, describe(c),
+		r.Check(lower && upper && nonEmpty, rule, w.InstrPos(c), fname, describe(c.(ssa.Value)),
 			fmt.Sprintf("dominated by minKey <= maxKey, 0 <= minKey and maxKey < %d for varKeyRange of the same config", K),
 			fmt.Sprintf("the slice-backed fetcher can be chosen for a key layout it cannot index (non-empty=%v lower-bound=%v upper-bound=%v): negative keys or the UndefinedVarKey marker would index out of range", nonEmpty, lower, upper))
 	})
@@ -476,24 +577,70 @@ func ruleFetchGate(w *World, r *Report) {
 			r.Check(good, rule, w.Pos(mf.Pos()), m, "Cached == true", "only for keys inside the slice", "Cached claims availability for a key outside the slice: TryEval would then fetch it")
 		}
 	}
-	// NewSliceVarFetcher allocates maxKey+1
-	allocOK := false
-	EachInstr(nsf, func(in ssa.Instruction) {
-		ms, ok := in.(*ssa.MakeSlice)
-		if !ok {
-			return
-		}
-		v := ms.Len
-		if cv, ok := v.(*ssa.Convert); ok {
-			v = cv.X
-		}
-		if add, ok := v.(*ssa.BinOp); ok && add.Op == token.ADD {
-			if c, ok := constInt(add.Y); ok && c == 1 && isRangeResult(add.X, vkr, 1, nsf.Params[0]) {
-				allocOK = true
+	// every function that builds the slice-backed fetcher allocates maxKey+1 slots for its own config
+	if !isBody(nsf) {
+		bodies = append(bodies, nsf)
+	}
+	for _, body := range bodies {
+		allocOK := false
+		k := configParamIndex(body)
+		EachInstr(body, func(in ssa.Instruction) {
+			ms, ok := in.(*ssa.MakeSlice)
+			if !ok || k < 0 {
+				return
 			}
+			v := ms.Len
+			if cv, ok := v.(*ssa.Convert); ok {
+				v = cv.X
+			}
+			if add, ok := v.(*ssa.BinOp); ok && add.Op == token.ADD {
+				if c, ok := constInt(add.Y); ok && c == 1 && isRangeResult(add.X, vkr, 1, body.Params[k]) {
+					allocOK = true
+				}
+			}
+		})
+		r.Check(allocOK, rule, w.Pos(body.Pos()), w.Name(body), "make([]Value, maxKey+1)", "one slot for every key up to the largest", "the slice fetcher is not sized maxKey+1 for the same config")
+	}
+}
+
+// sliceFetcherBodies: the package functions that build a slice-backed fetcher in place — a make([]Value, …)
+// whose result becomes a SliceVarFetcher. On the pinned tree that is NewSliceVarFetcher alone.
+func sliceFetcherBodies(w *World) []*ssa.Function {
+	var out []*ssa.Function
+	for _, f := range w.Funcs {
+		found := false
+		EachInstr(f, func(in ssa.Instruction) {
+			if ms, ok := in.(*ssa.MakeSlice); ok && isSliceFetcherMake(ms) {
+				found = true
+			}
+		})
+		if found {
+			out = append(out, f)
 		}
-	})
-	r.Check(allocOK, rule, w.Pos(nsf.Pos()), w.Name(nsf), "make([]Value, maxKey+1)", "one slot for every key up to the largest", "the slice fetcher is not sized maxKey+1 for the same config")
+	}
+	return out
+}
+
+func isSliceFetcherMake(ms *ssa.MakeSlice) bool {
+	if typeNameOf(ms.Type()) == "SliceVarFetcher" {
+		return true
+	}
+	for _, ref := range referrers(ms) {
+		if ct, ok := ref.(*ssa.ChangeType); ok && typeNameOf(ct.Type()) == "SliceVarFetcher" {
+			return true
+		}
+	}
+	return false
+}
+
+// configParamIndex: the position of the *Config parameter of f, -1 if none.
+func configParamIndex(f *ssa.Function) int {
+	for i, p := range f.Params {
+		if typeNameOf(deref(p.Type())) == "Config" {
+			return i
+		}
+	}
+	return -1
 }
 
 func isRangeResult(v ssa.Value, vkr *ssa.Function, idx int, cc ssa.Value) bool {
@@ -645,7 +792,13 @@ func ruleUnify(w *World, r *Report) {
 		r.Check(got[n] == want[n], rule, w.Pos(fn.Pos()), name, fmt.Sprintf("case %s: %s", n, got[n]), "normalised by "+want[n], fmt.Sprintf("want %s, found %q: values of type %s are not normalised as documented", want[n], got[n], n))
 	}
 	// constructors
-	for _, c := range []string{"NewSliceVarFetcher", "NewMapVarFetcher", "ToValueMap"} {
+	ctors := []string{"NewSliceVarFetcher", "NewMapVarFetcher", "ToValueMap"}
+	for _, b := range sliceFetcherBodies(w) {
+		if nm := w.Name(b); nm != "NewSliceVarFetcher" {
+			ctors = append(ctors, nm)
+		}
+	}
+	for _, c := range ctors {
 		cf := w.MustFn(r, rule, c)
 		if cf == nil {
 			continue
@@ -734,8 +887,28 @@ func classifyUnify(res ssa.Value, v ssa.Value) string {
 					}
 					src, ok := addr.(*ssa.IndexAddr)
 					if ok && src.X == v && src.Index == ia.Index {
-						if _, okh := rangeIndexHeader(ia.Index, v); okh {
+						if hdr, okh := rangeIndexHeader(ia.Index, v); okh {
 							good = true
+							// every element: the store happens on every iteration, and the list is handed on only
+							// after the loop ran to its end
+							for _, p := range hdr.Preds {
+								if hdr.Dominates(p) && !st.Block().Dominates(p) {
+									good = false
+								}
+							}
+							for _, use := range referrers(ms) {
+								if _, isIA := use.(*ssa.IndexAddr); isIA {
+									continue
+								}
+								if c, isCall := use.(*ssa.Call); isCall {
+									if _, isLen := lenArg(c); isLen {
+										continue
+									}
+								}
+								if !edgeDominates(hdr, 1, use.Block()) {
+									good = false
+								}
+							}
 						}
 					}
 				}
@@ -840,8 +1013,24 @@ func ruleVarNode(w *World, r *Report) {
 		r.Check(good, rule, w.Pos(fn.Pos()), w.Name(fn), "returns s[varKey]", "the slice-backed fetcher reads by key", "the slice-backed fetcher does not return the slot of the key it is given")
 	}
 	// NewSliceVarFetcher stores vals[name] at VariableKeyMap[name]
-	if fn := w.MustFn(r, rule, "NewSliceVarFetcher"); fn != nil {
+	vnBodies := sliceFetcherBodies(w)
+	if nsf := w.MustFn(r, rule, "NewSliceVarFetcher"); nsf != nil {
+		has := false
+		for _, b := range vnBodies {
+			has = has || b == nsf
+		}
+		if !has {
+			vnBodies = append(vnBodies, nsf)
+		}
+	}
+	for _, fn := range vnBodies {
 		good := false
+		valsParam := ssa.Value(nil)
+		for _, p := range fn.Params {
+			if _, isMap := p.Type().Underlying().(*types.Map); isMap {
+				valsParam = p
+			}
+		}
 		EachInstr(fn, func(in ssa.Instruction) {
 			st, ok := in.(*ssa.Store)
 			if !ok {
@@ -876,7 +1065,7 @@ func ruleVarNode(w *World, r *Report) {
 				return
 			}
 			lk, ok := ex.Tuple.(*ssa.Lookup)
-			if !ok || lk.X != ssa.Value(fn.Params[1]) {
+			if !ok || valsParam == nil || lk.X != valsParam {
 				return
 			}
 			nameEx, ok := lk.Index.(*ssa.Extract)
@@ -889,6 +1078,18 @@ func ruleVarNode(w *World, r *Report) {
 }
 
 var c11Witnesses = []Witness{
+	{Name: "unify-int32-list-conversion-leaves-early", Rule: "R-UNIFY", Edits: []Edit{
+		{File: "variable.go", Old: "\tcase []int32:\n\t\ttemp := make([]int64, len(v))\n\t\tfor i, iv := range v {\n\t\t\ttemp[i] = int64(iv)\n\t\t}\n\t\treturn temp\n", New: "\tcase []int32:\n\t\ttemp := make([]int64, len(v))\n\t\tfor i, iv := range v {\n\t\t\tif i > 7 {\n\t\t\t\tbreak\n\t\t\t}\n\t\t\ttemp[i] = int64(iv)\n\t\t}\n\t\treturn temp\n"}}},
+	{Name: "unify-int32-list-skips-negative-elements", Rule: "R-UNIFY", Edits: []Edit{
+		{File: "variable.go", Old: "\tcase []int32:\n\t\ttemp := make([]int64, len(v))\n\t\tfor i, iv := range v {\n\t\t\ttemp[i] = int64(iv)\n\t\t}\n\t\treturn temp\n", New: "\tcase []int32:\n\t\ttemp := make([]int64, len(v))\n\t\tfor i, iv := range v {\n\t\t\tif iv < 0 {\n\t\t\t\tcontinue\n\t\t\t}\n\t\t\ttemp[i] = int64(iv)\n\t\t}\n\t\treturn temp\n"}}},
+	{Name: "benign-key-default-then-break", Rule: "R-KEYSTABLE", Benign: true, Edits: []Edit{
+		{File: "variable.go", Old: "\tfor i := 1; i <= size; i++ {\n\t\tkey := VariableKey(i)\n\t\tif !keySet[key] {\n\t\t\tcc.VariableKeyMap[name] = key\n\t\t\treturn key\n\t\t}\n\t}\n\tkey := VariableKey(size + 1)\n", New: "\tkey := VariableKey(size + 1)\n\tfor i := 1; i <= size; i++ {\n\t\tif !keySet[VariableKey(i)] {\n\t\t\tkey = VariableKey(i)\n\t\t\tbreak\n\t\t}\n\t}\n"}}},
+	{Name: "key-default-then-break-takes-last-candidate", Rule: "R-KEYSTABLE", Edits: []Edit{
+		{File: "variable.go", Old: "\tfor i := 1; i <= size; i++ {\n\t\tkey := VariableKey(i)\n\t\tif !keySet[key] {\n\t\t\tcc.VariableKeyMap[name] = key\n\t\t\treturn key\n\t\t}\n\t}\n\tkey := VariableKey(size + 1)\n", New: "\tkey := VariableKey(size + 1)\n\tfor i := 1; i <= size; i++ {\n\t\tif !keySet[VariableKey(i)] || i == size {\n\t\t\tkey = VariableKey(i)\n\t\t\tbreak\n\t\t}\n\t}\n"}}},
+	{Name: "key-default-is-len-not-len-plus-one", Rule: "R-KEYSTABLE", Edits: []Edit{
+		{File: "variable.go", Old: "\tfor i := 1; i <= size; i++ {\n\t\tkey := VariableKey(i)\n\t\tif !keySet[key] {\n\t\t\tcc.VariableKeyMap[name] = key\n\t\t\treturn key\n\t\t}\n\t}\n\tkey := VariableKey(size + 1)\n", New: "\tkey := VariableKey(size)\n\tfor i := 1; i <= size; i++ {\n\t\tif !keySet[VariableKey(i)] {\n\t\t\tkey = VariableKey(i)\n\t\t\tbreak\n\t\t}\n\t}\n"}}},
+	{Name: "merged-key-scan-leaves-early", Rule: "R-KEYSTABLE", Edits: []Edit{
+		{File: "variable.go", Old: "\tfor i := 1; i <= size; i++ {\n\t\tkey := VariableKey(i)\n\t\tif !keySet[key] {\n\t\t\tcc.VariableKeyMap[name] = key\n\t\t\treturn key\n\t\t}\n\t}\n\tkey := VariableKey(size + 1)\n", New: "\tnext := 1\n\tfor next <= size && keySet[VariableKey(next)] {\n\t\tif next == 3 {\n\t\t\tbreak\n\t\t}\n\t\tnext++\n\t}\n\tkey := VariableKey(next)\n"}}},
 	{Name: "benign-key-scan-merged-into-one-assignment", Rule: "R-KEYSTABLE", Benign: true, Edits: []Edit{
 		{File: "variable.go", Old: "\tfor i := 1; i <= size; i++ {\n\t\tkey := VariableKey(i)\n\t\tif !keySet[key] {\n\t\t\tcc.VariableKeyMap[name] = key\n\t\t\treturn key\n\t\t}\n\t}\n\tkey := VariableKey(size + 1)\n", New: "\tnext := 1\n\tfor next <= size && keySet[VariableKey(next)] {\n\t\tnext++\n\t}\n\tkey := VariableKey(next)\n"}}},
 	{Name: "merged-key-scan-stops-one-short", Rule: "R-KEYSTABLE", Edits: []Edit{
